@@ -381,3 +381,66 @@ func verifC06_JWT() {
 		verifCover("token-expired-between-two-requests")
 	}
 }
+
+// ---- header rules ----------------------------------------------------------------------
+
+// verifC06_HeaderRules: the configured header rules with the REAL httpheader.Validator and the
+// real regexp package: a request passes iff every rule's header is PRESENT and its value is one
+// of the rule's values or matches the rule's pattern - a rule that admits the empty string
+// (a pattern matching "", or "" among the values) still needs the header to be there.
+// Otherwise: result invalid, 400.
+func verifC06_HeaderRules() {
+	patterns := []string{"", "^[a-z0-9]*$", "^t[0-9]$"}
+	pk := verifChoose("rule.regexp", len(patterns))
+	vv := &httpheader.ValueValidator{Regexp: patterns[pk]}
+	switch verifChoose("rule.values", 3) {
+	case 1:
+		vv.Values = []string{"", "prod"}
+	case 2:
+		vv.Values = []string{verifString("rule.value", 2)}
+	}
+	verifAssume(vv.Validate() == nil) // neither values nor regexp: rejected by validation
+	hs := httpheader.ValidatorSpec{"X-Tenant": vv}
+	v := &Validator{spec: &Spec{Headers: &hs}}
+	v.headers = httpheader.NewValidator(v.spec.Headers)
+
+	ctx, req := vRequest()
+	present := verifBool("req.hasHeader")
+	value := ""
+	if present {
+		value = verifString("req.headerValue", 3)
+		req.Std().Header["X-Tenant"] = []string{value}
+	}
+	result := v.Handle(ctx)
+
+	matches := false
+	for _, x := range vv.Values {
+		if x == value {
+			matches = true
+		}
+	}
+	switch pk {
+	case 1:
+		ok := true
+		for i := 0; i < len(value); i++ {
+			c := value[i]
+			if !(c >= 'a' && c <= 'z' || c >= '0' && c <= '9') {
+				ok = false
+			}
+		}
+		matches = matches || ok
+	case 2:
+		matches = matches || (len(value) == 2 && value[0] == 't' && value[1] >= '0' && value[1] <= '9')
+	}
+	want := present && matches
+	resp, _ := ctx.GetOutputResponse().(*httpprot.Response)
+	if want {
+		verifAssert(result == "" && resp == nil, "request-satisfying-the-header-rules-is-accepted")
+		verifCover("accepted")
+	} else {
+		verifAssert(result == resultInvalid && resp != nil && resp.StatusCode() == 400, "request-failing-a-header-rule-is-rejected-400")
+		if !present && (pk == 1 || len(vv.Values) == 2) {
+			verifCover("missing-header-with-a-rule-admitting-the-empty-string")
+		}
+	}
+}
